@@ -75,7 +75,7 @@ impl Engine for C19 {
                     for keyed in [true, false] {
                         for fl in [Fl::Sync, Fl::Async] {
                             n += 1;
-                            let pre_reads = if oneshot { vec![] } else { [vec![], vec![1], vec![7], vec![9, 20000], vec![len + 10], vec![usize::MAX], vec![3, usize::MAX]][n % 7].clone() };
+                            let pre_reads = if oneshot { vec![] } else { [vec![], vec![1], vec![7], vec![9, 20000], vec![len + 10], vec![usize::MAX], vec![3, usize::MAX], vec![usize::MAX - 1]][n % 8].clone() };
                             let post = [Post::None, Post::Modify, Post::Truncate, Post::Remove, Post::Replace][(n / 2) % 5];
                             let mut link = mk_link(if keyed { Some(0) } else { None }, relative, oneshot, ALGOS[n % 5], pre_reads, if n % 3 == 0 { Declare::Exact } else { Declare::None }, if n % 4 == 0 { IntegDecl::Correct } else { IntegDecl::None });
                             // the relative target spelled through a symlinked directory and `..`
@@ -91,7 +91,7 @@ impl Engine for C19 {
         for (i, (declare, integ)) in [(Declare::Off(1), IntegDecl::None), (Declare::Off(-1), IntegDecl::None), (Declare::None, IntegDecl::WrongDigest), (Declare::Exact, IntegDecl::MultiAllWrong), (Declare::None, IntegDecl::MultiWithCorrect)].into_iter().enumerate() {
             for fl in [Fl::Sync, Fl::Async] {
                 for keyed in [true, false] {
-                    let link = mk_link(if keyed { Some(0) } else { None }, false, false, ALGOS[i % 5], vec![3], declare, integ);
+                    let link = mk_link(if keyed { Some(0) } else { None }, false, false, ALGOS[i % 5], if keyed { vec![3] } else { vec![usize::MAX - 1] }, declare, integ);
                     out.push(Case { blob: Blob::new(50 + i, 90), link, fl, cwd_depth: 0, preexisting: false, post: Post::None, prior_link: keyed });
                 }
             }
